@@ -340,8 +340,9 @@ def obsEDrop (ws : List String) : Option (String × List Arg × List StmtOp) := 
   let dyn := kv ws "dyn" == "1"
   let f := Extracted.frame
   let c0 := Cache.init Extracted.cacheInlineCap
-  -- the statements of the history, in order, against the queue (maxCap = 0: a bounded queue never grows)
-  let q0 : Queue := { cap := Drv.nat! (kv ws "qcap"), used := Drv.nat! (kv ws "qused"), maxCap := 0 }
+  -- the statements of the history, in order, against the queue (`qmax` = 0: a bounded queue never grows; an unbounded
+  -- one refuses — null, or QuillError for a record over the maximum — when doubling would exceed `qmax`)
+  let q0 : Queue := { cap := Drv.nat! (kv ws "qcap"), used := Drv.nat! (kv ws "qused"), maxCap := Drv.nat! (kv ws "qmax") }
   let (dropped, _, _) := ops.foldl (fun (acc : Nat × Queue × Cache) op =>
       let (n, q, c) := acc
       let total := reserved f c op.args false
@@ -351,8 +352,8 @@ def obsEDrop (ws : List String) : Option (String × List Arg × List StmtOp) := 
       | some q' => (n, q', c')) (0, q0, c0)
   let c := cacheAfter true c0 ops
   let res := reserved f c args dyn
-  -- the backend has drained the queue: the statement is refused only if it exceeds the capacity
-  if !(({ q0 with used := 0 } : Queue).fits res) then some (s!"dropped={dropped} reserved=0 consumed=0", args, ops) else
+  -- the backend has drained the queue: the statement is refused only if it exceeds the capacity (and the queue cannot grow)
+  if (({ q0 with used := 0 } : Queue).reserve res).2.isNone then some (s!"dropped={dropped} reserved=0 consumed=0", args, ops) else
   let hdr : Bytes := List.replicate f.header 0
   let lvl : Bytes := if dyn then List.replicate f.lvlBytes 7 else []
   let consumed := match writeRecord fill c 0 hdr args lvl with
